@@ -448,8 +448,10 @@ class NumpyConverter(object):
         # Do some sanity checks
         assert data_array.dtype == np.float32
         assert data_array.shape == (len(self.ilines), len(self.xlines), len(self.samples))
+        # Only the header words segyio gives every trace header have a row in the SGZ header-word table
+        storable_tracefields = [int(hw) for hw in segyio.segy.Field(bytearray(240), kind='trace')]
         for tracefield, header_array in self.trace_headers.items():
-            assert tracefield in segyio.tracefield.keys.values()
+            assert tracefield in storable_tracefields
             assert header_array.shape == data_array[:, :, 0].shape
 
         self.data_array = data_array
